@@ -2,7 +2,7 @@
 import json
 
 from .engine import AUTO
-from .model import colliding_paths
+from .model import colliding_paths, cluster_paths
 
 CHUNKS = ["whole", "whole", "whole", "bytes", 1, 2, 3, 5, 7, "rand", "rand"]
 
@@ -67,6 +67,10 @@ class Bus:
         base = ["a", "a/b", "a/b/c", "A/b", "ab", "b", "b/a", "ü/x", "x", "B", "a/B/c", "abc", "c/a"]
         if o["colliding"]:
             base = base[:5] + colliding_paths(eo, o["colliding"], prefix="k")
+        if o.get("cluster"):
+            nb, per, where = o["cluster"]
+            first = {"low": 100, "wrap": (1 << eo) - nb // 2}[where]
+            base = base[:3] + cluster_paths(eo, first, nb, per)
         if o.get("rich"):
             base = base + ["", " ", "p" * 150, "\u00e4\u00f6\u00fc\u20ac\U0001F600", "a\tb\"c\\d", "\u0001", "q/" * 40, "A/B", "a/b/"]
         self.paths = o["paths"] or base
